@@ -57,6 +57,8 @@ def run(ck):
     ck.trusted += ['Coq 8.16.1 kernel + vm_compute (PrimFloat)', 'scripted metric object (harness)', 'numpy re-implementation of mse/mae/accuracy/brier']
     ck.assumptions += ['scores finite and not NaN']
     ck.check_theorems()
+    from harness import selectarith
+    selectarith.check_translation(ck)
     temps = [0.0, 0.5, 1.0, 2.0, 4.0]
     alphabet = [0.0, 1.0, 2.0]
     rng = ck.rng
